@@ -1,13 +1,13 @@
 #!/bin/sh
 # Runs every seeded change (seeded/plan.txt: id + checks to run) and writes seeded/RESULTS.md.
-# Usage: seeded_all.sh [tier] [only-id-prefix]
+# Usage: seeded_all.sh [tier] [only-id-regex] [append]   (append: add the block to RESULTS.md instead of rewriting it)
 cd "$(dirname "$0")/.." || exit 2
-tier=${1:-quick}; only=${2:-}
+tier=${1:-quick}; only=${2:-}; mode=${3:-}
 out=seeded/RESULTS.md
 tmp=$(mktemp /tmp/verif-seeded.XXXXXX)
 while read -r id props; do
 	[ -z "$id" ] && continue
-	case "$id" in "$only"*) ;; *) continue ;; esac
+	echo "$id" | grep -Eq "^($only)" || continue
 	c=$(./selftest/confirm.sh seeded/$id 2>&1 | tail -n 1)
 	echo "confirm: $c" >> "$tmp"
 	./selftest/mutant.sh seeded/$id/patch.diff $tier $props 2>&1 | cut -c1-300 >> "$tmp"
@@ -21,6 +21,8 @@ done < seeded/plan.txt
 	echo '```'
 	cat "$tmp"
 	echo '```'
-} > "$out"
+} > "$tmp.out"
+if [ "$mode" = append ]; then { echo; cat "$tmp.out"; } >> "$out"; else mv "$tmp.out" "$out"; fi
+rm -f "$tmp.out"
 rm -f "$tmp"
 grep -c CAUGHT "$out"; grep missed "$out"
